@@ -25,10 +25,13 @@ Definition cpp_ser_plan : chkplan :=
   {| pl_ser_impl := check_first tpl_c_events_cpp_ser_impl; pl_ser_vla := check_first tpl_c_events_cpp_ser_vla;
      pl_des_vla := true; pl_des_hdr := true |}.
 
-Definition tree_cfg (opt : bool) (ov : ty -> nat -> nat) (upf le : bool) (al : nat -> bool) : cfg :=
+Definition tree_cfg_a (asr opt : bool) (ov : ty -> nat -> nat) (upf le : bool) (al : nat -> bool) : cfg :=
   {| ov := if opt then ov else (fun _ n => n); up_front := if opt then upf else true; little := le; al := al;
      len_chk_storage := opt && tpl_c_len_check_storage; guarded := opt && tpl_c_ser_guarded; ptr_clamp := tpl_c_des_ptr_clamped;
-     bulk_on := true; nested_strict := false; plan := tree_plan |}.
+     bulk_on := true; nested_strict := false; plan := tree_plan;
+     asserts := asr; assert_max := negb (opt && tpl_c_assert_max_not_under_override) |}.
+(* assertions compiled out (the default) *)
+Definition tree_cfg := tree_cfg_a false.
 
 (* the remaining order facts (boolean, from the scanner): the union chains end in BAD_UNION_TAG, guarded byte loads, nunavutGetBits
    zero-fills from floor(sat/8), the C++ serializer stores only through checked members - and those members test before they store *)
@@ -123,19 +126,58 @@ Print Assumptions c04_option_ser_in_bounds.
    specification and, on the C primitives, to the generated code) produces its bytes for a value, the instrumented walker run on the
    object holding that value follows the same cursor (tie_body) and reports exactly the number of bytes produced - any primitive
    record whose stores keep the buffer length, any rendering with the specification's length checks *)
-Theorem c04_ser_safe_is_functional : forall P c, plan_ok c -> (forall e n, chk_cap c e n = n) -> cap_sound c ->
+Theorem c04_ser_safe_is_functional : forall P c, plan_ok c -> (forall e n, chk_cap c e n = n) -> asserts c = false -> cap_sound c ->
   forall t v buf capB bits, wf_ty t = true -> align t = 8 ->
   Walker.walk_ser P t v buf capB = Ok bits -> length buf = 8 * capB ->
   (forall b o, Walker.ws_body P t v buf 0 = Ok (b, o) -> length b = length buf) ->
   fst (walk_ser_safe c t (embed t v) capB) = Ok (length bits / 8).
-Proof. intros P c Hpl Hk Hc t v buf capB bits Hwf Ha. exact (walk_ser_safe_size P c Hpl Hk t v buf capB bits Hwf Ha Hc). Qed.
+Proof. intros P c Hpl Hk Has Hc t v buf capB bits Hwf Ha. exact (walk_ser_safe_size P c Hpl Hk Has t v buf capB bits Hwf Ha Hc). Qed.
 Print Assumptions c04_ser_safe_is_functional.
 
 Theorem c04_ser_errors : forall c, plan_ok c -> forall t o capB,
   (exists n, fst (walk_ser_safe c t o capB) = Ok n) \/
-  (exists e, fst (walk_ser_safe c t o capB) = Err e /\ ser_err_documented e = true).
+  (exists e, fst (walk_ser_safe c t o capB) = Err e /\ (ser_err_documented e = true \/ (e = EAssert /\ asserts c && assert_max c = true))).
 Proof. exact ser_total. Qed.
 Print Assumptions c04_ser_errors.
+
+(* both fixes are live in the tree (obligations: a template that multiplies before comparing, or asserts the DSDL maximum under the override,
+   either fails closed in the scanner or fails here) *)
+Example c04_hdr_check_nomul_live : tpl_cpp_hdr_check_nomul = true /\ tpl_cpp_hdr_check = HDivCmp.
+Proof. split; reflexivity. Qed.
+Example c04_assert_max_not_under_override_live : tpl_c_assert_max_not_under_override = true.
+Proof. reflexivity. Qed.
+
+(* ================================================  assertions (--enable-serialization-asserts)  ================================================ *)
+(* NUNAVUT_ASSERT((offset_bits + <max>) <= capacity) of _serialize_any is modelled as an abort (EAssert) when false.  Default build with
+   assertions: it never fires, for every buffer size and object content (this is what C03's "assertions never fire" needs for the inner sites) *)
+Theorem c04_asserts_never_fire_default : forall ov upf le al t o capB, wf_ty t = true -> align t = 8 ->
+  fst (walk_ser_safe (tree_cfg_a true false ov upf le al) t o capB) <> Err EAssert.
+Proof.
+  intros ov upf le al t o capB Hwf Ha.
+  exact (ser_asserts_never_fire_checked (tree_cfg_a true false ov upf le al) t o capB eq_refl eq_refl (or_intror (fun e n => le_n n)) Hwf Ha).
+Qed.
+Print Assumptions c04_asserts_never_fire_default.
+
+(* with the capacity override (reduced capacities, up-front test compiled in or out): never either - the tree no longer emits the assertion
+   under the option (c04_assert_max_not_under_override_live); the pre-f2f61d1 firing instance is in History/C04_history.v *)
+Theorem c04_asserts_option : forall ov upf le al t o capB,
+  fst (walk_ser_safe (tree_cfg_a true true ov upf le al) t o capB) <> Err EAssert.
+Proof.
+  intros ov upf le al t o capB H.
+  destruct (ser_total (tree_cfg_a true true ov upf le al) eq_refl t o capB) as [[n Hn]|(e & He & [Hd|[_ Hx]])]; try congruence.
+  - rewrite H in He. injection He as <-. discriminate Hd.
+  - discriminate Hx.
+Qed.
+Print Assumptions c04_asserts_option.
+
+(* ================================================  delimiter header test, any size_t width  ================================================ *)
+(* the C++ test as scanned rejects exactly the headers exceeding the remaining bytes for every size_t of at least hchk_min_width bits:
+   32 once the test divides (C04_header_wrap_fix.patch), 35 while it multiplies - i.e. NOT on the 32-bit targets (F-CPP-HDR-WRAP32) *)
+Theorem c04_cpp_hdr_check_exact : forall W h size, (hchk_min_width tpl_cpp_hdr_check <= W)%N -> (h < 2 ^ 32)%N ->
+  hchk_eval W tpl_cpp_hdr_check h size = (size / 8 <? h)%N.
+Proof. intros W h size. exact (hdr_check_exact W tpl_cpp_hdr_check h size). Qed.
+Print Assumptions c04_cpp_hdr_check_exact.
+
 
 (* ================================================  log entries vs. the primitive models  ================================================ *)
 (* an in-bounds entry means the primitive that produced it is DEFINED in the partial semantics of CPrims / CppPrims (None = access
